@@ -200,7 +200,7 @@ theorem recomputeService_inv (c : Ctl) (P : Slice → Prop) (sv : Svc)
   generalize hdd : (svcSlices c sv).foldl (fun s sl => sliceUpsert s none sl) c = d at hd hdsl hdsv hdpods hdnodes hdbyip hdsmap hsim
   generalize hrr : rebuildService c sv = r at hsim
   have hf := refreshIndex_fields r sv
-  have hsmapsv : alookup sv.host c.smap = some sv := hinv.smapSome sv hsv
+  have hsmapsv : alookup sv.host c.smap = some sv := hinv.smapSome sv hsv (fun h => h)
   -- slices of the hostname are slices of the service
   have hofhost : ∀ x ∈ c.slices, x.host = sv.host → x ∈ svcSlices c sv := by
     intro x hx hh
@@ -395,7 +395,7 @@ theorem recompute_fold_inv (l : List Svc) (c0 c : Ctl) (P Q : Slice → Prop)
     simp only [List.foldl_cons]
     have hsv0 : sv ∈ c0.svcs := hl sv (by simp)
     have hsv : sv ∈ c.svcs := by rw [hst.2.1]; exact hsv0
-    have hlook : alookup sv.host c.smap = some sv := hinv.smapSome sv hsv
+    have hlook : alookup sv.host c.smap = some sv := hinv.smapSome sv hsv (fun h => h)
     have hstep : recomputeStep (c, false) sv = (refreshIndex (rebuildService c sv) sv, false) := by
       unfold recomputeStep
       simp [hlook]
@@ -464,9 +464,11 @@ theorem buildSlice_nonempty (pods : List Pod) (nodes : List Node) (byIP : List (
     of every Service that selects the new labels, so the endpoints carry the new labels whatever was
     cached before. -/
 theorem pod_label_edit_inv (c : Ctl) (v : Pod) (c' : Ctl) (hph : v.phase ≠ "F") (hstep : stepC c (.pod v) = some c')
-    (hinv : Inv c)
+    {P : Slice → Prop} (hinv : InvExcept c P)
     (hwf : WF { c with pods := upsertBy (fun x => x.ns = v.ns ∧ x.name = v.name) v c.pods })
-    (hnc : NoCachedAddr c) (hgood : PodLabelGood c v) : Inv c' := by
+    (hnc : NoCachedAddr c) (hgood : PodLabelGood c v)
+    (hfree : ∀ x ∈ c.slices, P x → ∀ sv ∈ c.svcs, sv.ns = v.ns → selMatch sv.sel v.labels = true →
+      ¬ (x.ns = sv.ns ∧ x.svc = sv.name)) : InvExcept c' P := by
   rw [stepC_pod c v hph] at hstep
   simp only [Option.some.injEq] at hstep
   subst hstep
@@ -509,14 +511,14 @@ theorem pod_label_edit_inv (c : Ctl) (v : Pod) (c' : Ctl) (hph : v.phase ≠ "F"
         simp
       rw [hev]
       simp [runAll, runEvents, handle, hfind, hpe]
-    show Inv (runAll c1 _)
+    show InvExcept (runAll c1 _) P
     rw [hrun, recompute_eq]
     -- before the recompute only the slices that refer to the pod are out of date
     let P0 : Slice → Prop := fun x => ∃ ea ∈ x.addrPairs, ea.1.target = some (v.ns, v.name)
-    have h1 : InvExcept c1 P0 := by
+    have h1 : InvExcept c1 (fun x => P x ∨ P0 x) := by
       refine ⟨?_, hinv.noForeign, ?_, hinv.smapSome, hinv.smapOnly, hinv.index, hinv.nodup⟩
       · intro x hx hs hnp
-        have hfresh := hinv.fresh x hx hs (fun hf => hf)
+        have hfresh := hinv.fresh x hx hs (fun hp => hnp (Or.inl hp))
         unfold EntryOK at hfresh ⊢
         show cacheEntry c.cache x.host x.name = buildSlice c1.pods c.nodes c.byIP (alookup x.host c.smap) x
         rw [hfresh]
@@ -524,11 +526,10 @@ theorem pod_label_edit_inv (c : Ctl) (v : Pod) (c' : Ctl) (hph : v.phase ≠ "F"
         · intro ea hea tns tn htg
           have hsame : ¬ (tns = v.ns ∧ tn = v.name) := by
             intro h
-            apply hnp
-            exact ⟨ea, hea, by rw [htg, h.1, h.2]⟩
+            exact hnp (Or.inr ⟨ea, hea, by rw [htg, h.1, h.2]⟩)
           rw [hother tns tn hsame]
         · intro ea hea htg
-          rw [podByIP_none _ _ _ _ (hnc x hx ea hea htg), podByIP_none c1.pods _ _ _ (hnc x hx ea hea htg)]
+          rw [podByIP_empty _ _ _ _ (hnc x hx ea hea htg), podByIP_empty c1.pods _ _ _ (hnc x hx ea hea htg)]
       · intro x hx hnp a ha
         have ha' : a ∈ parkedAddrs c.pods x := by
           rw [parkedAddrs_congr c.pods c1.pods x]
@@ -536,22 +537,31 @@ theorem pod_label_edit_inv (c : Ctl) (v : Pod) (c' : Ctl) (hph : v.phase ≠ "F"
           · intro ea hea tns tn htg
             have hsame : ¬ (tns = v.ns ∧ tn = v.name) := by
               intro h
-              apply hnp
-              exact ⟨ea, hea, by rw [htg, h.1, h.2]⟩
+              exact hnp (Or.inr ⟨ea, hea, by rw [htg, h.1, h.2]⟩)
             rw [hother tns tn hsame]
-        exact hinv.parked x hx (fun hf => hf) a ha'
-    have h2 := recompute_fold_inv (c1.svcs.filter (fun sv => sv.ns = v.ns ∧ selMatch sv.sel v.labels)) c1 c1 P0 P0
+        exact hinv.parked x hx (fun hp => hnp (Or.inl hp)) a ha'
+    have h2 := recompute_fold_inv (c1.svcs.filter (fun sv => sv.ns = v.ns ∧ selMatch sv.sel v.labels)) c1 c1 (fun x => P x ∨ P0 x) (fun x => P x ∨ P0 x)
       h1 hwf (fun _ h => h) ⟨rfl, rfl, rfl, rfl, rfl, rfl⟩
       (fun sv hsv => (List.mem_filter.mp hsv).1)
       (by
-        intro sv _ x hx hp _ _ hs
+        intro sv hsvl x hx hp hxns hxsvc hs
+        cases hp with
+        | inl hp =>
+          have hm := List.mem_filter.mp hsvl
+          simp only [Bool.decide_and, Bool.and_eq_true, decide_eq_true_eq] at hm
+          exact absurd ⟨hxns, hxsvc⟩ (hfree x hx hp sv hm.1 hm.2.1 hm.2.2)
+        | inr hp =>
         obtain ⟨ea, hea, htg⟩ := hp
         exact buildSlice_nonempty c1.pods c1.nodes c1.byIP (some sv) x ea v.ns v.name v hs hea htg hfind
           (hsl x hx ⟨ea, hea, htg⟩).1)
     apply h2.1.mono
     intro x hx hq
     rw [h2.2] at hx
-    obtain ⟨sv, hsv, hns, hsel, hxns, hxsvc⟩ := (hsl x hx hq.1).2
+    cases hq.1 with
+    | inl hp => exact hp
+    | inr hp0 =>
+    exfalso
+    obtain ⟨sv, hsv, hns, hsel, hxns, hxsvc⟩ := (hsl x hx hp0).2
     apply hq.2
     refine ⟨sv, ?_, hxns, hxsvc⟩
     rw [List.mem_filter]
